@@ -300,8 +300,84 @@ func apply(d []byte, m Mut, orig *built) ([]byte, bool) {
 		return join(hdr, ns), true
 	case "forge":
 		return forge(orig, m.A), true
+	case "hdredit":
+		return headerEdit(d, m.A)
 	}
 	return nil, false
+}
+
+var headerEdits = []string{
+	"space-after-opening-brace", "members-reordered", "key-name-replaced", "cipher-id-exchanged",
+	"nonce-prefix-replaced", "mac-line-noncanonical-padding-bits", "mac-recomputed-under-zero-key", "crlf-line-ends",
+	"wfk-replaced-by-other-documents-wfk", "undocumented-member-added",
+}
+
+// headerEdit rewrites header fields the way an editor of the text header
+// would (the payload is left alone).
+func headerEdit(d []byte, variant int) ([]byte, bool) {
+	h, err := encv1ref.SplitHeader(d)
+	if err != nil {
+		return nil, false
+	}
+	m, err := encv1ref.ParseManifest(h.ManifestRaw)
+	if err != nil {
+		return nil, false
+	}
+	manifest := append([]byte{}, h.ManifestRaw...)
+	mac := append([]byte{}, h.MACLine...)
+	nl := "\n"
+	reenc := func(order []string) {
+		manifest, err = encv1ref.EncodeManifest(m, order)
+		if err != nil {
+			panic(err)
+		}
+	}
+	switch variant {
+	case 0:
+		manifest = append([]byte("{ "), manifest[1:]...)
+	case 1:
+		reenc([]string{"np", "cph", "wfk", "kw", "k"})
+	case 2:
+		m.KeyName, m.HasKeyName = "other-key", true
+		reenc(m.Fields)
+	case 3:
+		m.Cipher = 3 - m.Cipher
+		reenc(m.Fields)
+	case 4:
+		m.NoncePrefix = npB
+		reenc(m.Fields)
+	case 5:
+		// "...=" ends in a 4-bit-padded sextet: set its unused low bits
+		if len(mac) < 2 || mac[len(mac)-1] != '=' {
+			return nil, false
+		}
+		const alphabet = "ABCDEFGHIJKLMNOPQRSTUVWXYZabcdefghijklmnopqrstuvwxyz0123456789+/"
+		i := strings.IndexByte(alphabet, mac[len(mac)-2])
+		if i < 0 {
+			return nil, false
+		}
+		mac[len(mac)-2] = alphabet[i|1]
+		if bytes.Equal(mac, h.MACLine) {
+			mac[len(mac)-2] = alphabet[i|2]
+		}
+	case 6:
+		hdr := encv1ref.BuildHeader(zeroKey, manifest)
+		return append(hdr, d[h.PayloadOffset:]...), true
+	case 7:
+		nl = "\r\n"
+	case 8:
+		w, _ := kw.RefWrap(fkC)
+		m.WFK = w
+		reenc(m.Fields)
+	case 9:
+		manifest = append(append([]byte{}, manifest[:len(manifest)-1]...), []byte(`,"x":1}`)...)
+	default:
+		return nil, false
+	}
+	out := []byte(encv1ref.SchemeLine + nl)
+	out = append(append(out, manifest...), nl...)
+	out = append(append(out, mac...), nl...)
+	return append(out, d[h.PayloadOffset:]...), true
 }
 
 // classFlips: every bit of the first and last byte of each header line (the
@@ -486,7 +562,8 @@ func unwrapFn(mode string, wfk []byte) v1.UnwrapKeyFn {
 
 type verdict struct {
 	class, key, msg string
-	trivial         bool
+	trivial         bool // the bytes given to Decrypt are the original document, the vault works, no fault
+	accepted        bool // no alarm and the stream ended in a clean EOF (so the whole plaintext was read)
 }
 
 // judge is the oracle.
@@ -507,7 +584,7 @@ func judge(c *Case, orig *built, mutated []byte, expect, out []byte, err error) 
 	case c.FailAt >= 0 && err == nil:
 		class, what = "source-fault-swallowed", "the source reader failed but the stream ended with io.EOF"
 	default:
-		return verdict{trivial: bytes.Equal(mutated, orig.doc) && c.Unwrap == "" && c.FailAt < 0}
+		return verdict{trivial: bytes.Equal(mutated, orig.doc) && c.Unwrap == "" && c.FailAt < 0, accepted: err == nil}
 	}
 	// identity of the finding: the outcome class and the family of the last
 	// mutation; three shapes get a name of their own
@@ -601,7 +678,8 @@ func evaluate(c *Case, orig *built, d []byte) (verdict, bool) {
 // ---------------------------------------------------------------- run
 
 func run(r *enumx.Run, replay *enumx.ReplayCase) {
-	var nonceReuse, identical int64
+	var nonceReuse, identical, intact int64
+	intactBy := map[string]int64{}
 	var cmu sync.Mutex
 	check := func(c *Case, orig *built, d []byte) {
 		v, reuse := evaluate(c, orig, d)
@@ -616,6 +694,13 @@ func run(r *enumx.Run, replay *enumx.ReplayCase) {
 		}
 		if v.trivial {
 			identical++
+		} else if v.accepted {
+			intact++
+			name := "(none)"
+			if len(c.Muts) > 0 {
+				name = c.Muts[len(c.Muts)-1].sig()
+			}
+			intactBy[name]++
 		}
 		cmu.Unlock()
 		if v.class != "" {
@@ -639,7 +724,7 @@ func run(r *enumx.Run, replay *enumx.ReplayCase) {
 		}
 		return
 	}
-	r.Rule("each evaluation gives one mutated document (or one faulty source) to kit's Decrypt and reads the stream to its end; oracle: the bytes read before the first error are a prefix of the original plaintext, and the stream ends in a non-EOF error unless they are the whole plaintext; a source fault always ends in an error. Documents: reference-built, 2 ciphers x plaintext lengths {0,1,40,65536,65537,131077}. Single mutations: every bit of every byte (3 small documents) / every bit of the first, last-content and line-feed byte of each header line and of the first and last byte of each segment body and tag (large); truncation to every length (small) / within +-17 of every header-line and segment end (large); extension by 1,16,17,65552 bytes (zeros, copy of the tail); segment delete/duplicate/swap/move-last-forward/append; splice of every segment of donor documents (same key+prefix, same key other prefix, other key; all six lengths) over every segment; unwrap returning a wrong 32-byte key, a 16-byte key, nothing, an error; forged all-zero-key documents with stale or recomputed MAC. Compound: all ordered pairs over {boundary truncations, bit-flip classes, segment operations} on the two-segment document, the second mutation taken from the alphabet of the already mutated bytes. Faults: sticky non-EOF source error at every Read index, with and without data on the failing call, under default and 1-byte chunking (1-byte chunking on the large documents: quick takes the indexes within +-17 of every header-line, tag and segment boundary; thorough takes every index up to the two-segment document and the boundary neighbourhoods plus every 16th index of the three-segment document). A case is trivial when the mutation leaves the bytes unchanged.")
+	r.Rule("each evaluation gives one mutated document (or one faulty source) to kit's Decrypt and reads the stream to its end; oracle: the bytes read before the first error are a prefix of the original plaintext, and the stream ends in a non-EOF error unless they are the whole plaintext; a source fault always ends in an error. Documents: reference-built, 2 ciphers x plaintext lengths {0,1,40,65536,65537,131077}. Single mutations: every bit of every byte (3 small documents) / every bit of the first, last-content and line-feed byte of each header line and of the first and last byte of each segment body and tag (large); truncation to every length (small) / within +-17 of every header-line and segment end (large); extension by 1,16,17,65552 bytes (zeros, copy of the tail); segment delete/duplicate/swap/move-last-forward/append; splice of every segment of donor documents (same key+prefix, same key other prefix, other key; all six lengths) over every segment; unwrap returning a wrong 32-byte key, a 16-byte key, nothing, an error; forged all-zero-key documents with stale or recomputed MAC; ten edits of the text header (whitespace, member order, key name, cipher id, nonce prefix, wrapped key, extra member, MAC padding bits, MAC under the zero key, CRLF). Compound: all ordered pairs over {boundary truncations, bit-flip classes, segment operations} on the two-segment document, the second mutation taken from the alphabet of the already mutated bytes. Faults: sticky non-EOF source error at every Read index, with and without data on the failing call, under default and 1-byte chunking (1-byte chunking on the large documents: quick takes the indexes within +-17 of every header-line, tag and segment boundary; thorough takes every index up to the two-segment document and the boundary neighbourhoods plus every 16th index of the three-segment document). A case is trivial when the mutation leaves the bytes unchanged.")
 
 	t0 := time.Now()
 	lap := func(name string) {
@@ -695,6 +780,9 @@ func run(r *enumx.Run, replay *enumx.ReplayCase) {
 			muts = append(muts, segOps(l)...)
 			muts = append(muts, splices(b)...)
 			muts = append(muts, Mut{Op: "forge", A: 0}, Mut{Op: "forge", A: 1})
+			for v := range headerEdits {
+				muts = append(muts, Mut{Op: "hdredit", A: v, Where: headerEdits[v]})
+			}
 			singleCount += int64(len(muts))
 			const batch = 64
 			for lo := 0; lo < len(muts); lo += batch {
@@ -854,5 +942,7 @@ func run(r *enumx.Run, replay *enumx.ReplayCase) {
 	r.Sample(&Case{Cipher: 1, Len: 65537, Chunk: 1, FailAt: 65750, FailDat: true})
 
 	r.Set("cases_leaving_the_bytes_unchanged", identical)
+	r.Set("changed_documents_that_still_yield_the_whole_plaintext", intact)
+	r.Set("changed_documents_that_still_yield_the_whole_plaintext_by_last_mutation", intactBy)
 	r.Set("splices_valid_by_nonce_reuse_judged_against_the_reference", nonceReuse)
 }
